@@ -172,10 +172,10 @@ func init() {
 	hx.Register(&hx.Prop{
 		ID:          "C12",
 		Workers:     func(string) int { return 16 },
-		BudgetQuick: 150 * time.Second,
+		BudgetQuick: 300 * time.Second,
 		BudgetThor:  25 * time.Minute,
 		Kind:        "schedules",
-		Rule: "rule set of 4 rules (strict saliences; one tie with names out of salience order) x every name list of length 0..4 without repetition over {r0,r1,r2,r3,unknown} (206 lists incl. all permutations) x all 11 selected variants x policy x (N,M) with N+M in {len-1,len,len+1} x failing subset of size <=1; plus every list of length 2..4 over {r0,r1,r2,unknown} that repeats a name; plus call histories: the same selected call on one engine and builder before and after an in-place incremental update (salience change, body replacement, a formerly unknown name added), and two different selected calls in a row on one engine (every variant with a failing rule under both policies, then every variant with another name list), and the pool's model-dispatching selected call while another thread switches the pool's execution model (every schedule with <=2 (3) deviations); " +
+		Rule: "rule set of 4 rules (strict saliences; one tie with names out of salience order) x every name list of length 0..4 without repetition over {r0,r1,r2,r3,unknown} (206 lists incl. all permutations) x all 11 selected variants x policy x (N,M) with N+M in {len-1,len,len+1} x failing subset of size <=1; plus every list of length 2..4 over {r0,r1,r2,unknown} that repeats a name; plus call histories: the same selected call on one engine and builder before and after an in-place incremental update (salience change, body replacement, a formerly unknown name added), and two different selected calls in a row on one engine (every variant with a failing rule under both policies, then every variant with another name list), and the pool's model-dispatching selected call while another thread switches the pool's execution model, and the pool's sorted selected calls while an incremental update reverses the saliences (every schedule with <=2 (3) deviations; the order must be the sorted order of ONE version); " +
 			"sequential variants: one deterministic execution each; concurrent/mix/inverse/N-M variants: every schedule with <=1 (thorough 2) preemptions; oracle = staged reference plan on exactly the named existing rules (sorted / as-given order, unknown skipped, fail-without-running cases, no unselected rule ever runs)",
 		Assume: []string{"injected observer functions terminate", "for name lists that repeat a name only 'no unselected rule runs / every named existing rule runs / nothing selectable fails' is judged (the statement does not say how often a repeated name runs)"},
 		Run: func(c *hx.Ctx) {
@@ -209,6 +209,11 @@ func init() {
 					hx.Explore("C12", selPairScenario(pc), hx.ExploreCfg{Bound: 0, DefaultOnly: true}, c.Res)
 				}
 			}
+			for i, uc := range selUpdConfigs() {
+				if c.Mine(i) {
+					hx.Explore("C12", selUpdScenario(uc), hx.ExploreCfg{Bound: envBound(delayBound(c, 2)), Delay: true, Prune: true, Deadline: c.Deadline}, c.Res)
+				}
+			}
 			for i, ec := range selEMConfigs() {
 				if c.Mine(i) {
 					hx.Explore("C12", selEMScenario(ec), hx.ExploreCfg{Bound: envBound(delayBound(c, 2)), Delay: true, Prune: true, Deadline: c.Deadline}, c.Res)
@@ -216,6 +221,11 @@ func init() {
 			}
 		},
 		Rebuild: func(v *hx.Violation) *hx.Scenario {
+			if v.Scenario == "c12upd" {
+				var uc selUpdCfg
+				json.Unmarshal(v.Cfg, &uc)
+				return selUpdScenario(uc)
+			}
 			if v.Scenario == "c12em" {
 				var ec selEMCfg
 				json.Unmarshal(v.Cfg, &ec)
@@ -533,6 +543,111 @@ func selEMConfigs() []selEMCfg {
 		for _, names := range [][]string{{"r1", "r0"}, {"r2", "r0", "r3"}} {
 			out = append(out, selEMCfg{Sets: sets, Names: names})
 		}
+	}
+	return out
+}
+
+// ---- a sorted selected pool call while an incremental update changes the saliences ----
+
+type selUpdCfg struct {
+	Method string   `json:"method"`
+	Names  []string `json:"names"`
+}
+
+type selUpdState struct {
+	log  *gx.Log
+	err  error
+	pan  interface{}
+	uerr error
+}
+
+func selUpdScenario(cfg selUpdCfg) *hx.Scenario {
+	old := []gx.RuleSpec{{Name: "r0", ID: 1, Salience: 30}, {Name: "r1", ID: 2, Salience: 20}, {Name: "r2", ID: 3, Salience: 10}}
+	upd := []gx.RuleSpec{{Name: "r0", ID: 1, Salience: 10}, {Name: "r2", ID: 3, Salience: 30}} // same bodies, saliences reversed
+	template, err := engine.NewGenginePool(1, 2, engine.SortModel, gx.RulesText(old), map[string]interface{}{})
+	if err != nil {
+		vsched.InternalError("pool: %v", err)
+	}
+	pm := gx.PoolMethodByName(cfg.Method)
+	if pm == nil {
+		vsched.InternalError("no pool method %s", cfg.Method)
+	}
+	sal := func(v int) map[int64]int64 {
+		m := map[int64]int64{}
+		for _, r := range old {
+			m[r.ID] = r.Salience
+		}
+		if v == 1 {
+			for _, r := range upd {
+				m[r.ID] = r.Salience
+			}
+		}
+		return m
+	}
+	return &hx.Scenario{
+		Name: "c12upd",
+		Cfg:  cfg,
+		Opts: vsched.Options{Horizon: 20000},
+		New:  func() interface{} { return &selUpdState{log: &gx.Log{}} },
+		Body: func(s interface{}) {
+			st := s.(*selUpdState)
+			gp := gx.DeepClone(template).(*engine.GenginePool)
+			vsched.Go(func() { st.uerr = gp.UpdatePooledRulesIncremental(gx.RulesText(upd)) })
+			vsched.Go(func() {
+				data := map[string]interface{}{"ev": st.log.Ev, "ev3": st.log.Ev3, "boom": st.log.Boom}
+				st.err, _, st.pan = gx.PoolCallGuarded(pm, gp, data, gx.PoolCallParams{B: true, Names: cfg.Names, Stag: &engine.Stag{}})
+			})
+			vsched.WaitOthersDone()
+		},
+		Check: func(s interface{}, ex *vsched.Exec) (fs []hx.Finding) {
+			st := s.(*selUpdState)
+			raw, _ := json.Marshal(cfg)
+			desc := fmt.Sprintf("\n  cfg=%s\n  log=[%s] err=%v update err=%v", raw, st.log, st.err, st.uerr)
+			bad := func(sig, msg string) {
+				fs = append(fs, hx.Finding{Sig: "c12:upd:" + cfg.Method + ":" + sig, Msg: msg + desc})
+			}
+			if ex.Verdict != "" || st.pan != nil {
+				bad("did-not-complete", fmt.Sprintf("verdict %q panic %v", ex.Verdict, st.pan))
+				return
+			}
+			if st.err != nil || st.uerr != nil {
+				bad("error", "a healthy selected call / incremental update failed")
+				return
+			}
+			var order []int64
+			for _, e := range st.log.Evs {
+				if e.K == "s" {
+					order = append(order, e.ID)
+				}
+			}
+			if len(order) != len(cfg.Names) {
+				bad("count", fmt.Sprintf("%d rules ran, %d existing rules were named", len(order), len(cfg.Names)))
+				return
+			}
+			okAny := false
+			for v := 0; v < 2; v++ {
+				m := sal(v)
+				ok := true
+				for i := 1; i < len(order); i++ {
+					if m[order[i-1]] < m[order[i]] {
+						ok = false
+					}
+				}
+				okAny = okAny || ok
+			}
+			if !okAny {
+				bad("order-of-no-version", fmt.Sprintf("the named rules ran in the order %v, which is non-increasing in the saliences of neither the old nor the updated rule set", order))
+			}
+			return
+		},
+		Outcome: func(s interface{}) string { return s.(*selUpdState).log.String() },
+	}
+}
+
+func selUpdConfigs() []selUpdCfg {
+	var out []selUpdCfg
+	for _, m := range []string{"ExecuteSelectedRules", "ExecuteSelectedRulesWithControl", "ExecuteSelectedRulesWithControlAndStopTag"} {
+		out = append(out, selUpdCfg{Method: m, Names: []string{"r1", "r0", "r2"}})
 	}
 	return out
 }
